@@ -994,7 +994,10 @@ where
                         match query_router.parse(&message) {
                             Ok(ast) => {
                                 if let Ok(output) = query_router.execute_plugins(&ast).await {
-                                    plugin_output = Some(output);
+                                    // A later Parse of the same batch must not lift a denial.
+                                    if !matches!(plugin_output, Some(PluginOutput::Deny(_))) {
+                                        plugin_output = Some(output);
+                                    }
                                 }
 
                                 let _ = query_router.infer(&ast);
@@ -1341,7 +1344,10 @@ where
                         if query_router.query_parser_enabled() {
                             if let Ok(ast) = query_router.parse(&message) {
                                 if let Ok(output) = query_router.execute_plugins(&ast).await {
-                                    plugin_output = Some(output);
+                                    // A later Parse of the same batch must not lift a denial.
+                                    if !matches!(plugin_output, Some(PluginOutput::Deny(_))) {
+                                        plugin_output = Some(output);
+                                    }
                                 }
                             }
                         }
